@@ -47,7 +47,7 @@ def replay(chk, vecs, par=8):
 
 def key_of(o, why):
     st = " ".join("%s%d:%d" % (s["op"], s["p"], s["n"]) for s in o["vec"]["steps"])
-    return "%s:np%d:%s:%s" % (o["vec"]["sink"], o["vec"]["np"], st, why)
+    return "%s%s:np%d:%s:%s" % (o["vec"]["sink"], "+racing" if o["vec"].get("async") else "", o["vec"]["np"], st, why)
 
 
 def judge_runs(chk, obs):
@@ -91,11 +91,13 @@ def run(chk, replay_rec):
     if thorough:
         s2 += schedules(chk, np=3, t=TT, sizes="{%d,%d}" % (TT - 1, TT + 1), mw=1)
     vecs = []
-    def add(scheds, sink, frac, log=0):
+    def add(scheds, sink, frac, log=0, async_=False):
         k = 0
         for s in scheds:
             if frac >= 1 or rnd.random() < frac:
                 v = dict(sink=sink, np=s["np"], steps=s["steps"])
+                if async_:
+                    v["async"] = True
                 if k < log:
                     v["log"] = True
                     k += 1
@@ -105,6 +107,12 @@ def run(chk, replay_rec):
     add(s2, "mem", 1 if thorough else 0.5, log=150); add(s2, "stl", f); add(s2, "3mf", f)
     add(l1, "dxf", 1); add(l1, "svg", 1)
     add(l2, "dxf", f, log=100); add(l2, "svg", f)
+    # the same schedules with the writes of different producers racing each other (multiset judged), and
+    # with harness-owned consumers behind a BUFFERED channel that keep every received batch to the end
+    fa = 1.0 if thorough else 0.1
+    add(s2, "mem", fa, async_=True); add(l2, "dxf", fa / 2, async_=True)
+    add(s1, "tmemb", 1, async_=True); add(l1, "lmemb", 1, async_=True)
+    add(s2, "tmemb", fa, async_=True); add(l2, "lmemb", fa, async_=True)
     obs = replay(chk, vecs)
     chk.traces += len(obs)
     if len(obs) != len(vecs):
@@ -118,15 +126,27 @@ def run(chk, replay_rec):
     unreal = len(getattr(chk, "last_drift", []))
     if bad:
         first = bad[:6]
-        o2 = replay(chk, [o["vec"] for o, _ in first])
-        b2 = judge_runs(chk, o2)
-        again = {key_of(o, ""): why for o, why in b2}
+        again = {}
+        # deterministic schedules must reproduce at once; racing writes get up to 30 attempts
+        for attempt in range(30):
+            todo = [o for o, _ in first if key_of(o, "") not in again and (attempt == 0 or o["vec"].get("async"))]
+            if not todo:
+                break
+            o2 = replay(chk, [o["vec"] for o in todo])
+            for o, why in judge_runs(chk, o2):
+                again.setdefault(key_of(o, ""), why)
         for o, why in first:
             k = key_of(o, "")
             if k not in again:
+                if o["vec"].get("async"):
+                    chk.notes.append("racing-writes failure seen once but not reproduced in 30 attempts: " + k)
+                    continue
                 raise vlib.Inconclusive("rejected run did not reproduce: " + key_of(o, why))
             chk.violation(key_of(o, again[k]), "real pipeline run rejected: %s; written=%d delivered runs=%s count=%d" % (
-                again[k], o["written"], o["delivered"][:6], o["count"]), dict(vector={x: o["vec"][x] for x in ("sink", "np", "steps")}, why=again[k]))
+                again[k], o["written"], o["delivered"][:6], o["count"]),
+                dict(vector={x: o["vec"][x] for x in ("sink", "np", "steps", "async") if x in o["vec"]}, why=again[k]))
+        if not chk.violations and any("racing-writes failure" in n for n in chk.notes):
+            raise vlib.Inconclusive(chk.notes[-1])
     if unreal > len(obs) // 50:
         raise vlib.Inconclusive("%d of %d schedules could not be realised on the real code" % (unreal, len(obs)))
     # ---- T: event-level conformance
@@ -135,7 +155,7 @@ def run(chk, replay_rec):
         out = chk.vh(["c11-record", kind], timeout=900)
         recs = [json.loads(x) for x in out.splitlines() if x.strip()]
         gated = [dict(sink=o["vec"]["sink"], name="gated " + key_of(o, ""), events=o["events"]) for o in obs
-                 if o.get("events") and ((o["vec"]["sink"] in ("mem", "stl", "3mf")) == (kind == "tri"))]
+                 if o.get("events") and not o["vec"].get("async") and ((o["vec"]["sink"] in ("mem", "stl", "3mf")) == (kind == "tri"))]
         rej = validate_events(chk, recs, 1, t, "PipelineTrace free-running " + kind)
         rej += validate_events(chk, gated, 2, t, "PipelineTrace gated np=2 " + kind)
         ev_runs += recs + gated
@@ -147,7 +167,8 @@ def run(chk, replay_rec):
     for o in obs[:len(obs):max(1, len(obs) // 4)]:
         chk.sample(dict(sink=o["vec"]["sink"], np=o["vec"]["np"], schedule=key_of(o, ""), written=o["written"], delivered=o["delivered"]))
     chk.cov.update(dict(schedules_replayed=len(obs), schedules_unrealised=unreal,
-                        per_sink={s: sum(1 for o in obs if o["vec"]["sink"] == s) for s in ("mem", "stl", "3mf", "dxf", "svg")},
+                        per_sink={s: sum(1 for o in obs if o["vec"]["sink"] == s) for s in ("mem", "stl", "3mf", "dxf", "svg", "tmemb", "lmemb")},
+                        racing_write_runs=sum(1 for o in obs if o["vec"].get("async")),
                         event_traces=len(ev_runs), thresholds=dict(triangles=TT, lines=TL),
                         exhaustive=True,
                         rule="schedule = complete behaviour of Pipeline.tla (writes with sizes around the real threshold, writer "
